@@ -297,8 +297,8 @@ theorem addr0_is_before_first (f : Nat) (ed : Ed) (lb : Lb) (arg : Bytes) (txt :
 theorem ec_put_spec (f : Nat) (ed ed' : Ed) (loc cmd arg : Bytes) (txt : Option Bytes) (rc : Int)
     (h : runCmd (f + 1) ed "ec_put" loc cmd arg txt = some (rc, ed')) :
     (rc = 0 ∨ rc = 1) ∧
-    (rc = 0 → ∃ buf b e ed1, regGet ed (regName arg) = some buf ∧ exRegion ed loc = some ((0, b, e), ed1) ∧
-      0 ≤ e ∧ e ≤ ed.len ∧
+    (rc = 0 → ∃ buf r b e ed1, regGet ed (regName arg) = some buf ∧ exRegion ed loc = some ((r, b, e), ed1) ∧
+      (r = 0 ∨ (b = 0 ∧ e = 0)) ∧ 0 ≤ e ∧ e ≤ ed.len ∧
       lines ed' = (lines ed).take e.toNat ++ splitLines buf ++ (lines ed).drop e.toNat ∧
       ed'.xrow = min (ed'.len - 1) (e + (splitLines buf).length - 1)) ∧
     (rc = 1 → lines ed' = lines ed ∧ AddrOnly ed ed') ∧
@@ -318,9 +318,15 @@ theorem ec_put_spec (f : Nat) (ed ed' : Ed) (loc cmd arg : Bytes) (txt : Option 
       · cases h
         exact ⟨Or.inr rfl, fun h => by omega, fun _ => ⟨ha.lines, ha⟩, fun hn => by rw [hn] at hg; cases hg⟩
       · rename_i hc
-        simp only [bne_iff_ne, ne_eq, Decidable.not_not] at hc
-        subst hc
-        obtain ⟨v1, v2, v3, _⟩ := hv rfl
+        have hl1 := len_nonneg ed1
+        have hbnd : (rc0 = 0 ∨ (b = 0 ∧ e = 0)) ∧ 0 ≤ e ∧ e ≤ ed1.len := by
+          by_cases h0 : rc0 = 0
+          · obtain ⟨v1, v2, v3, _⟩ := hv h0
+            exact ⟨Or.inl h0, by omega, v3⟩
+          · simp only [Bool.and_eq_true, bne_iff_ne, ne_eq, Bool.or_eq_true, not_and, not_or, Decidable.not_not] at hc
+            obtain ⟨hb0, he0⟩ := hc h0
+            exact ⟨Or.inr ⟨hb0, he0⟩, by omega, by omega⟩
+        obtain ⟨hor, v1, v3⟩ := hbnd
         split at h
         · cases h
         · rename_i ed2 hed
@@ -332,7 +338,7 @@ theorem ec_put_spec (f : Nat) (ed ed' : Ed) (loc cmd arg : Bytes) (txt : Option 
           have e3 : ed'.xrow = min (ed2.len - 1) (e + ed2.len - ed1.len - 1) := by rw [← hed']
           have hfr := ed_edit_frame _ _ _ _ _ (by omega) (Int.le_refl e) v3 hed
           rw [ha.lines, ha.len] at hfr
-          refine ⟨Or.inl rfl, fun _ => ⟨buf, b, e, ed1, hg, hreg, by omega, by rw [← ha.len]; exact v3, e1.trans hfr.1, ?_⟩,
+          refine ⟨Or.inl rfl, fun _ => ⟨buf, rc0, b, e, ed1, hg, hreg, hor, by omega, by rw [← ha.len]; exact v3, e1.trans hfr.1, ?_⟩,
             fun h => by omega, fun hn => by rw [hn] at hg; cases hg⟩
           rw [e3, e2, hfr.2, ha.len]
           simp only [optLines]
@@ -428,7 +434,7 @@ theorem ec_lnum_spec (f : Nat) (ed ed' : Ed) (loc cmd arg : Bytes) (txt : Option
 theorem ec_mark_spec (f : Nat) (ed ed' : Ed) (loc cmd arg : Bytes) (txt : Option Bytes) (rc : Int)
     (h : runCmd (f + 1) ed "ec_mark" loc cmd arg txt = some (rc, ed')) :
     (rc = 0 ∨ rc = 1) ∧ lines ed' = lines ed ∧
-    (rc = 0 → ∃ b e ed1 lb, exRegion ed loc = some ((0, b, e), ed1) ∧ ed.lb = some lb ∧
+    (rc = 0 → ∃ b e ed1 lb, exRegion ed loc = some ((0, b, e), ed1) ∧ 0 ≤ e - 1 ∧ e - 1 < ed.len ∧ ed.lb = some lb ∧
       ed'.lb = some (setMark lb (arg.headD 0) (e - 1) 0)) ∧
     (rc = 1 → AddrOnly ed ed') := by
   rw [runCmd] at h
@@ -441,14 +447,16 @@ theorem ec_mark_spec (f : Nat) (ed ed' : Ed) (loc cmd arg : Bytes) (txt : Option
     · cases h
       exact ⟨Or.inr rfl, ha.lines, fun h => by omega, fun _ => ha⟩
     · rename_i hc
-      simp only [bne_iff_ne, ne_eq, Decidable.not_not] at hc
+      simp only [Bool.or_eq_true, bne_iff_ne, ne_eq, decide_eq_true_eq, not_or, Decidable.not_not, Int.not_le] at hc
+      obtain ⟨hc, hbe⟩ := hc
       subst hc
+      obtain ⟨v1, v2, v3, _⟩ := hv rfl
       split at h
       · cases h
       · rename_i lb hlb
         cases h
         have hlb' := setLb_lb ed1 lb (setMark lb (arg.headD 0) (e - 1) 0) hlb
-        refine ⟨Or.inl rfl, ?_, fun _ => ⟨b, e, ed1, lb, hreg, by rw [← ha.lb]; exact hlb, hlb'⟩, fun h => by omega⟩
+        refine ⟨Or.inl rfl, ?_, fun _ => ⟨b, e, ed1, lb, hreg, by omega, by rw [← ha.len]; omega, by rw [← ha.lb]; exact hlb, hlb'⟩, fun h => by omega⟩
         rw [lines_of_lb hlb', Props.C01.setMark_lines, ← lines_of_lb hlb, ha.lines]
 
 /-- the mark just set is the one `'x` finds (for a mark table of the proper size) -/
@@ -488,17 +496,17 @@ theorem invalid_region_unchanged (f : Nat) (ed ed' : Ed) (hd : String) (loc cmd 
   · exact (ec_rs_spec f ed ed' loc cmd arg txt 1 h).2.1
 
 /-- an address that does not resolve to existing lines makes the command return 1, text unchanged
-    (`ec_insert` lets `beg = end = 0` through: address 0 on an empty buffer) -/
+    (`ec_insert` and `ec_put` let `beg = end = 0` through: address 0 on an empty buffer) -/
 theorem invalid_region_rejected (f : Nat) (ed ed1 : Ed) (hd : String) (loc cmd arg : Bytes) (txt : Option Bytes)
     (b e : Int)
     (hh : hd ∈ ["ec_insert", "ec_delete", "ec_yank", "ec_put", "ec_print", "ec_lnum", "ec_mark"])
-    (hreg : exRegion ed loc = some ((1, b, e), ed1)) (hins : hd = "ec_insert" → ¬ (b = 0 ∧ e = 0)) :
+    (hreg : exRegion ed loc = some ((1, b, e), ed1)) (hins : hd = "ec_insert" ∨ hd = "ec_put" → ¬ (b = 0 ∧ e = 0)) :
     ∃ ed', runCmd (f + 1) ed hd loc cmd arg txt = some (1, ed') ∧ lines ed' = lines ed := by
   have ha := (region_all _ _ _ _ _ _ hreg).1
   simp only [List.mem_cons, List.not_mem_nil, or_false] at hh
   rcases hh with rfl | rfl | rfl | rfl | rfl | rfl | rfl
   · have hbe : ((b != 0 || e != 0) = true) := by
-      have := hins rfl
+      have := hins (Or.inl rfl)
       simp only [Bool.or_eq_true, bne_iff_ne, ne_eq]
       omega
     refine ⟨ed1, ?_, ha.lines⟩
@@ -519,10 +527,14 @@ theorem invalid_region_rejected (f : Nat) (ed ed1 : Ed) (hd : String) (loc cmd a
       rw [runCmd]
       simp only [String.reduceBEq, Bool.false_eq_true, ↓reduceIte, Bool.or_false, hg]
     | some buf =>
+      have hbe : ((b != 0 || e != 0) = true) := by
+        have := hins (Or.inr rfl)
+        simp only [Bool.or_eq_true, bne_iff_ne, ne_eq]
+        omega
       refine ⟨ed1, ?_, ha.lines⟩
       rw [runCmd]
       simp only [String.reduceBEq, Bool.false_eq_true, ↓reduceIte, Bool.or_false, hg, hreg]
-      simp
+      simp [hbe]
   · by_cases hpre : (cmd.isEmpty && loc.isEmpty && decide (ed.xrow ≥ ed.len)) = true
     · refine ⟨ed, ?_, rfl⟩
       rw [runCmd]
